@@ -22,6 +22,10 @@ class ClassMarker(Obj):
     def abs_getattr(self, name, ev, node):
         proj = PROJECT[0]
         expr = proj.lookup_class_attr(self.cls, proj.unmangle(name)) if proj is not None else None
+        if expr is None and proj is not None:
+            f = proj.lookup_method(self.cls, name)
+            if f is not None and f.kind in ("staticmethod", "classmethod", "method"):
+                return FuncValue(f, self if f.kind == "classmethod" else None)
         if expr is None:
             raise Unsupported(f"attribute {name} of class {self.cls.name}", node)
         sub = Evaluator({}, ev.funcs)
@@ -30,6 +34,20 @@ class ClassMarker(Obj):
 
 
 PROJECT = [None]
+
+
+class FuncValue(Obj):
+    """A package function / method used as a value (stored in a table, passed as a callback) and called later."""
+
+    def __init__(self, f, first=None):
+        super().__init__(f"function {f.short}")
+        self.f = f
+        self.first = first
+
+    def abs_call(self, args, kw, ev, node):
+        self.f.node._csa_module = self.f.module
+        self.f.node._csa_cls = self.f.cls
+        return ev.call_user(self.f.node, ([self.first] if self.first is not None else []) + list(args), dict(kw))
 
 
 def install(proj) -> None:
@@ -148,3 +166,16 @@ def install(proj) -> None:
         return False, None
 
     abseval.FALLBACK_NAMES = names
+
+    def class_attr(ev: Evaluator, name: str, node) -> Tuple[bool, Any]:
+        cls = ev.cls_ctx
+        if cls is None:
+            return False, None
+        expr = proj.lookup_class_attr(cls, proj.unmangle(name))
+        if expr is None:
+            return False, None
+        sub = Evaluator({}, ev.funcs)
+        sub.module = cls.module
+        return True, sub.ev(expr)
+
+    abseval.FALLBACK_CLASS_ATTR = class_attr
